@@ -1,14 +1,12 @@
 (* MODEL: refeval_model *)
-(* case:  <id> EVAL <maxdepth> <hex src> <hex of the AST dump of the real parser's tree>
+(* case:  <id> EVAL <maxdepth> <hex src> <AST dump of the real parser's tree, spaces written as '_'>
    out :  <id> OUT <hex printed bytes> RES V <value> | RES E          (DESIGN Appendix B)
           <id> SKIP <why>   when the program leaves the reference's domain (inexact float, macros,
                             extensions, printer-dependent text, error-message text, out of fuel)      *)
 let fuel : nat =
   let rec go acc i = if i <= 0 then acc else go (S acc) (i - 1) in go O 30000
 
-let string_of_hexstr (h : string) : string =
-  if h = "-" || h = "" then "" else
-  String.init (String.length h / 2) (fun i -> Char.chr (16 * hexval h.[2*i] + hexval h.[2*i+1]))
+let undump (d : string) : string = String.map (fun c -> if c = '_' then ' ' else c) d
 
 let rec render (b : Buffer.t) (v : value) : unit =
   match v with
@@ -30,7 +28,7 @@ let rec render (b : Buffer.t) (v : value) : unit =
   | VOpaque -> Buffer.add_string b "?opaque"
 
 let eval_line (id : string) (dumphex : string) : string =
-  match (try read_ast (string_of_hexstr dumphex) with Failure m -> None) with
+  match (try read_ast (undump dumphex) with Failure m -> None) with
   | None -> id ^ " SKIP unreadable-tree"
   | Some prog ->
     (try
